@@ -2,6 +2,8 @@
 current source with `ast` (see DESIGN.md §3.1). Every fact is consumed by `Model/C05Gen.lean`
 (`cfg`, `scfg`) and through it by `cfg_good` / `scfg_good` in Props/C05.lean and by the driver."""
 import ast
+import re
+import sysconfig
 
 from harness.common import extract
 from harness.common.extract import NotRecognised
@@ -415,6 +417,252 @@ def stat_file_facts(tree, only=None):
 stat_file_facts.KEYS = ("rfind", "off", "ppid", "ctime")
 
 
+# ------------------------------------------------------------------------------ the range gate of Process(pid)
+# (seeded round 5: Model/C05Range.lean). Two TOTAL extractors: a shape they do not know gives the value that makes
+# the obligation `rcfg_good` fail (limit 0 / false), never an exception.
+
+_C_LINUX_DEFINED = {"PSUTIL_LINUX", "PSUTIL_POSIX", "__linux__", "__linux", "linux", "__unix__", "PSUTIL_HAVE_IOPRIO"}
+
+
+def _c_strip_comments(src):
+    src = re.sub(r"/\*.*?\*/", lambda m: "\n" * m.group(0).count("\n"), src, flags=re.S)
+    return re.sub(r"//[^\n]*", " ", src)
+
+
+def _c_int(expr, env):
+    """value of a small integer constant expression of C (literals, known macros, + - * << >> | & parentheses, casts)"""
+    e = re.sub(r"\(\s*(?:unsigned\s+|signed\s+)?(?:int|long|long\s+long|pid_t|size_t|unsigned)\s*\)", "", expr)
+    e = re.sub(r"\b(0[xX][0-9a-fA-F]+|\d+)[uUlL]+\b", r"\1", e)
+
+    def ident(m):
+        w = m.group(0)
+        if re.fullmatch(r"0[xX][0-9a-fA-F]+|\d+", w):
+            return w
+        if w not in env:
+            raise NotRecognised("unknown identifier %s in %r" % (w, expr))
+        return "(%d)" % env[w]
+    e = re.sub(r"\b\w+\b", ident, e)
+    if not re.fullmatch(r"[0-9a-fA-FxX\s()+\-*<>|&]+", e) or "**" in e:
+        raise NotRecognised("not a constant expression: %r" % expr)
+    try:
+        v = eval(e, {"__builtins__": {}}, {})  # noqa: S307 (sanitised above)
+    except Exception as exc:
+        raise NotRecognised("cannot evaluate %r: %s" % (expr, exc))
+    if not isinstance(v, int) or isinstance(v, bool):
+        raise NotRecognised("not an int: %r" % expr)
+    return v
+
+
+def _c_preprocess_linux(src, env):
+    """The text of a C file as the Linux build sees it: `#if`/`#ifdef`/`#ifndef`/`#elif`/`#else`/`#endif` evaluated with
+    the Linux macros defined, object-like `#define NAME <int expr>` collected into `env`. A condition that cannot be
+    decided keeps BOTH branches (the function shape test below then sees every test on `pid` there is)."""
+    out, stack = [], []        # stack of [active_here, any_branch_taken, undecided]
+
+    def cond(text):
+        t = text.strip()
+        t2 = re.sub(r"defined\s*\(\s*(\w+)\s*\)|defined\s+(\w+)",
+                    lambda m: "1" if ((m.group(1) or m.group(2)) in _C_LINUX_DEFINED or (m.group(1) or m.group(2)) in env) else "0", t)
+        t2 = t2.replace("&&", " and ").replace("||", " or ").replace("!", " not ").replace(" not =", "!=")
+        try:
+            names = {w: env[w] for w in re.findall(r"\b[A-Za-z_]\w*\b", t2) if w not in ("and", "or", "not")}
+        except KeyError:
+            return None
+        if not re.fullmatch(r"[\w\s()<>=!+\-*]+", t2):
+            return None
+        try:
+            return bool(eval(t2, {"__builtins__": {}}, names))  # noqa: S307
+        except Exception:
+            return None
+    for line in src.split("\n"):
+        m = re.match(r"\s*#\s*(\w+)\s*(.*)$", line)
+        active = all(f[0] for f in stack)
+        if not m:
+            if active:
+                out.append(line)
+            continue
+        d, rest = m.group(1), m.group(2)
+        if d in ("ifdef", "ifndef", "if"):
+            if d == "if":
+                v = cond(rest)
+            else:
+                v = (rest.strip() in _C_LINUX_DEFINED or rest.strip() in env)
+                v = v if d == "ifdef" else not v
+            stack.append([True, True, True] if v is None else [v, v, False])
+        elif d == "elif" and stack:
+            f = stack[-1]
+            if not f[2]:
+                v = cond(rest)
+                if v is None:
+                    f[0], f[2] = True, True
+                else:
+                    f[0] = (not f[1]) and v
+                    f[1] = f[1] or f[0]
+        elif d == "else" and stack:
+            f = stack[-1]
+            if not f[2]:
+                f[0] = not f[1]
+                f[1] = True
+        elif d == "endif" and stack:
+            stack.pop()
+        elif d == "define" and active:
+            dm = re.match(r"(\w+)\s+(.+?)\s*$", rest)
+            if dm and "(" not in dm.group(1):
+                try:
+                    env[dm.group(1)] = _c_int(dm.group(2), env)
+                except NotRecognised:
+                    pass
+    return "\n".join(out)
+
+
+def _c_body(src, name):
+    m = re.search(r"\b%s\s*\([^)]*\)\s*\{" % re.escape(name), src)
+    if not m:
+        return None
+    i, depth = m.end(), 1
+    while i < len(src) and depth:
+        depth += {"{": 1, "}": -1}.get(src[i], 0)
+        i += 1
+    return src[m.end():i - 1] if depth == 0 else None
+
+
+def _c_if_conditions(body):
+    """→ (texts of every `if (…)` condition, the body with those conditions blanked)"""
+    conds, rest, i = [], [], 0
+    for m in re.finditer(r"\bif\s*\(", body):
+        if m.start() < i:
+            continue
+        j, depth = m.end(), 1
+        while j < len(body) and depth:
+            depth += {"(": 1, ")": -1}.get(body[j], 0)
+            j += 1
+        conds.append(body[m.end():j - 1])
+        rest.append(body[i:m.start()])
+        i = j
+    rest.append(body[i:])
+    return conds, " ".join(rest)
+
+
+def check_pid_range_facts(common_c, pid_t_bytes):
+    """TOTAL → (limit, shape_known). `limit`: smallest non-negative PID psutil_check_pid_range() refuses in the Linux build
+    as far as the source can be read: the `_Py_PARSE_PID` conversion into a `pid_t` overflows from 2^(8·sizeof(pid_t) − 1)
+    on; every `if` of the body that compares `pid` with a constant upwards (`pid >= N`, `pid > N`, `N <= pid`, `N < pid`,
+    also inside `||`) lowers it. `pid < 0` is the ValueError for negatives (no PID). `shape_known` is False when `pid` is
+    used in ANY other way — another comparison shape, `&&`, a bit test, a helper called with it, a loop, a switch, `?:`,
+    another conversion — i.e. when the helper may refuse PIDs the limit does not account for: the obligation `rcfg_good`
+    then fails (the model keeps running with the limit that could be read)."""
+    env = {}
+    src = _c_preprocess_linux(_c_strip_comments(common_c), env)
+    body = _c_body(src, "psutil_check_pid_range")
+    base_default = 2 ** (8 * pid_t_bytes - 1)
+    if body is None:
+        return base_default, False
+    known = bool(re.search(r"\bpid_t\s+pid\s*;", body))
+    conds, rest = _c_if_conditions(body)
+    fmt = None
+    limit = None
+    for c in conds:
+        t = " ".join(c.split())
+        if "PyArg_ParseTuple" in t:
+            m = re.fullmatch(r"!\s*PyArg_ParseTuple\s*\(\s*args\s*,\s*(_Py_PARSE_PID|\"[ilL]\")\s*,\s*&\s*pid\s*\)", t)
+            if not m or fmt is not None:
+                known = False
+            else:
+                fmt = m.group(1)
+            continue
+        if not re.search(r"\bpid\b", t):
+            continue
+        for part in t.split("||"):
+            part = part.strip()
+            while part.startswith("(") and part.endswith(")") and part.count("(") == part.count(")") == 1:
+                part = part[1:-1].strip()
+            if not re.search(r"\bpid\b", part):
+                continue
+            if re.fullmatch(r"pid\s*<\s*0|pid\s*<=\s*-\s*1|0\s*>\s*pid|-\s*1\s*>=\s*pid", part):
+                continue
+            m = re.fullmatch(r"pid\s*(>=|>)\s*(.+)", part)
+            m2 = re.fullmatch(r"(.+?)\s*(<=|<)\s*pid", part)
+            try:
+                if m and "&&" not in part:
+                    v = _c_int(m.group(2), env) + (1 if m.group(1) == ">" else 0)
+                elif m2 and "&&" not in part:
+                    v = _c_int(m2.group(1), env) + (1 if m2.group(2) == "<" else 0)
+                else:
+                    known = False
+                    continue
+            except NotRecognised:
+                known = False
+                continue
+            v = max(v, 0)
+            limit = v if limit is None else min(limit, v)
+    if fmt is None:
+        known = False
+    rest = re.sub(r'"(?:\\.|[^"\\])*"', '""', rest)          # the texts of the error messages are not code
+    # outside the `if` conditions `pid` may only be declared
+    rest_wo_decl = re.sub(r"\bpid_t\s+pid\s*;", " ", rest)
+    if re.search(r"\bpid\b", rest_wo_decl) or re.search(r"\b(while|for|switch|goto)\b|\?", rest):
+        known = False
+    width = {"_Py_PARSE_PID": 8 * pid_t_bytes, '"i"': 32, '"l"': 64, '"L"': 64}.get(fmt, 8 * pid_t_bytes)
+    width = min(width, 8 * pid_t_bytes)
+    base = 2 ** (width - 1)
+    return (base if limit is None else min(base, limit)), known
+
+
+def init_range_only_c(fn):
+    """TOTAL. Process._init(): up to the construction of the platform object (`self._proc = …Process(pid)`) the only
+    things that can refuse a PID are `if pid < 0: raise ValueError…`, `if not isinstance(pid, int): raise TypeError…` and
+    `try: <…>.check_pid_range(pid)  except OverflowError: raise NoSuchProcess(…)`; `pid` is passed to nothing else and
+    is compared with nothing else."""
+    stmts = []
+    for st in fn.body:
+        tgt = st.targets[0] if isinstance(st, ast.Assign) else None
+        stmts.append(st)
+        if tgt is not None and extract.dotted(tgt) == "self._proc":
+            break
+    else:
+        return False
+    ok_calls = {"os.getpid", "isinstance", "ValueError", "TypeError", "NoSuchProcess", "threading.RLock"}
+    seen_check = 0
+    for st in stmts:
+        for n in ast.walk(st):
+            if isinstance(n, ast.Compare) and any(extract.dotted(x) == "pid" for x in [n.left] + list(n.comparators)):
+                l, r = n.left, n.comparators[0]
+                is_none = len(n.ops) == 1 and isinstance(n.ops[0], (ast.Is, ast.IsNot)) and isinstance(r, ast.Constant) and r.value is None
+                neg = len(n.ops) == 1 and extract.dotted(l) == "pid" and isinstance(n.ops[0], ast.Lt) \
+                    and isinstance(r, ast.Constant) and r.value == 0
+                if not (is_none or neg):
+                    return False
+            if isinstance(n, ast.Call):
+                name = extract.dotted(n.func) or ""
+                uses_pid = any(extract.dotted(a) == "pid" for a in list(n.args) + [k.value for k in n.keywords])
+                if name.endswith("check_pid_range"):
+                    seen_check += 1
+                elif uses_pid and name not in ok_calls and not name.endswith("_psplatform.Process"):
+                    return False
+            if isinstance(n, (ast.While, ast.For, ast.Match)):
+                return False
+        if isinstance(st, ast.Assign) and extract.dotted(st.targets[0]) == "pid":
+            return False                                    # `pid` rebound at top level
+    if seen_check != 1:
+        return False
+    # the helper's OverflowError must become NoSuchProcess, nothing else is caught or raised around it
+    for n in ast.walk(_wrap(stmts)):
+        if isinstance(n, ast.Try):
+            calls = [extract.dotted(c.func) or "" for b in n.body for c in ast.walk(b) if isinstance(c, ast.Call)]
+            if not any(c.endswith("check_pid_range") for c in calls):
+                continue
+            if len(n.body) != 1 or len(n.handlers) != 1 or n.orelse or n.finalbody:
+                return False
+            h = n.handlers[0]
+            if extract.dotted(h.type) != "OverflowError":
+                return False
+            raises = [x for b in h.body for x in ast.walk(b) if isinstance(x, ast.Raise)]
+            if len(raises) != 1 or not isinstance(raises[0].exc, ast.Call) or extract.dotted(raises[0].exc.func) != "NoSuchProcess":
+                return False
+            return True
+    return False
+
+
 def facts(snap, F):
     init = extract.parse_module(snap, "__init__.py")
     linux = extract.parse_module(snap, "_pslinux.py")
@@ -480,3 +728,20 @@ def facts(snap, F):
     F.try_add("statOffset", "Nat", lambda: extract.lean_nat(_get(sff(), "off")), "_parse_stat_file(): `data[rpar + N:]`")
     F.try_add("statPpidIdx", "Nat", lambda: extract.lean_nat(_get(sff(), "ppid")), "_parse_stat_file(): ret['ppid'] = fields[N]")
     F.try_add("statCtimeIdx", "Nat", lambda: extract.lean_nat(_get(sff(), "ctime")), "_parse_stat_file(): ret['create_time'] = fields[N]")
+    pid_t_bytes = sysconfig.get_config_var("SIZEOF_PID_T") or 4
+    cr = {}
+
+    def crf():
+        if "v" not in cr:
+            cr["v"] = check_pid_range_facts(snap.source("_psutil_common.c"), pid_t_bytes)
+        return cr["v"]
+    F.try_add("checkPidRangeLimit", "Nat", lambda: extract.lean_nat(crf()[0]),
+              "psutil_check_pid_range() (Linux build of psutil/_psutil_common.c): smallest non-negative PID it refuses "
+              "(OverflowError): 2^(bits of pid_t - 1) from the _Py_PARSE_PID conversion, lowered by every `pid >= N` / `pid > N` test "
+              "of the body")
+    F.try_add("checkPidRangeShapeKnown", "Bool", lambda: extract.lean_bool(crf()[1]),
+              "psutil_check_pid_range(): `pid` is only declared (pid_t), converted with _Py_PARSE_PID and compared with constants "
+              "(`pid < 0`, `pid >= N`, `pid > N`): nothing else can refuse a PID")
+    F.try_add("initRangeOnlyC", "Bool", lambda: extract.lean_bool(init_range_only_c(fn("_init"))),
+              "Process._init(): before the platform object is built a PID is refused only by `pid < 0` (ValueError) and by "
+              "cext.check_pid_range(pid) -> OverflowError -> NoSuchProcess")
